@@ -705,6 +705,8 @@ func (p *player) dialectFor() *dialect.Dialect {
 			}
 		}
 		return &dialect.Dialect{Version: 3, Messages: ms}
+	case "common_v0": // the messages of common in a dialect whose version is 0 (XML without <version>, hand-built dialect)
+		return &dialect.Dialect{Version: 0, Messages: common.Dialect.Messages}
 	case "common_rev": // the messages of common in reverse order of declaration (REQUEST_DATA_STREAM before HEARTBEAT)
 		n := len(common.Dialect.Messages)
 		ms := make([]message.Message, n)
